@@ -1,7 +1,7 @@
 """C07 The variable mapping is a faithful description of the assembled problem."""
 import numpy as np
 from .. import env, attach, gen, flow
-from ..mon_problem import mon_mapping_asset, mon_mapping_portfolio
+from ..mon_problem import mon_mapping_asset, mon_mapping_portfolio, mon_internal_steps
 
 PROPERTY = 'C07'
 gen.OFFGRID = 0.12      # some asset windows start or end strictly between two grid points
@@ -45,6 +45,7 @@ def run_case(rng, tier, case):
     for ev in rec.of('asset_setup'):
         if ev.snap is not None and not ev.args.get('costs_only'):
             mon_mapping_asset(case, ev)
+            mon_internal_steps(case, ev)
             if len(ev.snap.c):
                 n_assets_with_vars += 1
     # the mapping stays the description of the problem when the problem is used: an (ordinary or relaxed) optimize call leaves vectors, rows and every
